@@ -226,6 +226,33 @@ pub fn gen(ctx: &mut Ctx, idx: u64) -> RunSpec {
     RunSpec { property: ID.into(), file: fx.name.clone(), inner, entry, stored_faults: faults, delivery, ops: vec![Op::Sweep], note: format!("seeded #{}", j) }
 }
 
+/// Key of a scaling verdict: the description of the flood with its decimal numbers (offsets,
+/// counts) erased and its hexadecimal ones (record and token types) kept.
+fn erase_decimals(s: &str) -> String {
+    let b: Vec<char> = s.chars().collect();
+    let mut out = String::with_capacity(s.len());
+    let mut i = 0;
+    while i < b.len() {
+        if b[i] == '0' && i + 1 < b.len() && b[i + 1] == 'x' {
+            out.push_str("0x");
+            i += 2;
+            while i < b.len() && b[i].is_ascii_hexdigit() {
+                out.push(b[i]);
+                i += 1;
+            }
+        } else if b[i].is_ascii_digit() {
+            out.push('#');
+            while i < b.len() && b[i].is_ascii_digit() {
+                i += 1;
+            }
+        } else {
+            out.push(b[i]);
+            i += 1;
+        }
+    }
+    out
+}
+
 /// A scaling run: the same amplified input with a quarter, a half and all of its generated
 /// items, in this order and in one process.  "Time proportional to the input" means the last
 /// costs about four times the first; sixteen times is quadratic.  The verdict needs a
@@ -268,7 +295,7 @@ fn exec_scaling(ctx: &mut Ctx, spec: &RunSpec, idx: u64) -> RunResult {
             .iter()
             .rev()
             .find(|f| matches!(&f.edit, Some(Edit::Repeat { count, .. }) if *count >= 8000))
-            .map(|f| erase_numbers(&f.why))
+            .map(|f| erase_decimals(&f.why))
             .unwrap_or_default();
         last.violations.push(Violation {
             class: "superlinear".into(),
